@@ -306,10 +306,13 @@ def rule_wgate(roles):
 def rule_wassoc(prog):
     """in the body that computes binding powers: right = left + 1 exactly when the registered
     associativity is LEFT, right = left - 1 exactly when it is RIGHT; no other condition (such as the
-    precedence value or the operator name) decides the direction"""
+    precedence value or the operator name) decides the direction.  The associativity test may be an
+    `==` on the enum or a match on its discriminant."""
     from r_panic import bool_source
     obs = []
     n = 0
+    aadt = prog.f.adt_by_name.get('operator::InfixOpAssociativity')
+    anames = [v['name'] for v in aadt['variants']] if aadt else []
     for b in pair_functions(prog).values():
         sites = []
         for bb, i, pl, rv in b.assigns():
@@ -323,48 +326,65 @@ def rule_wassoc(prog):
         for bb, op in sites:
             want = 'LEFT' if op == 'Add' else 'RIGHT'
             found = False
-            for sb in sorted(b.live_blocks):
+            for sb, kind, detail in gates_of(b, bb):
                 t = b.blocks[sb]['term']
-                if t['k'] != 'switch':
+                if kind in ('try', 'option'):
                     continue
-                edges = [x for v, x in switch_edges(b, sb) if edge_dominates(b, sb, x, bb)]
-                if not edges:
+                if kind == 'pred':
+                    tc = detail
+                    nm = tc.rdef or tc.callee or ''
+                    if nm.split('::')[-1] in ('is_err', 'is_ok', 'is_none', 'is_some'):
+                        continue
+                    if tc.callee in ('std::cmp::PartialEq::eq', 'std::cmp::PartialEq::ne') and tc.fn and all('InfixOpAssociativity' in a for a in tc.fn.get('args', [])[:2]):
+                        consts = set()
+                        for a in tc.args[:2]:
+                            for o in trace_operand(b, a):
+                                if o.kind == 'agg' and o.data[2]['agg'] == 'adt' and not o.data[2]['ops']:
+                                    consts.add(o.data[2]['variant'])
+                                elif o.kind == 'const':
+                                    m = re.search(r'::(\w+)$', o.data.get('s', ''))
+                                    if m:
+                                        consts.add(m.group(1))
+                        src = bool_source(b, t['discr'])
+                        parity = src[1] if src else 0
+                        truth = None
+                        listed = [v for v, _ in t['targets']]
+                        for v, x in switch_edges(b, sb):
+                            if edge_dominates(b, sb, x, bb):
+                                truth = (1 if listed == [0] else 0 if listed == [1] else None) if v == 'otherwise' else (1 if v != 0 else 0)
+                        if truth is not None:
+                            truth ^= parity ^ (1 if tc.callee.endswith('::ne') else 0)
+                        if consts == {want} and truth == 1:
+                            found = True
+                        elif consts and truth == 0 and consts == (set(anames) - {want}):
+                            found = found or len(anames) == 2
+                        elif consts == {want} and truth == 0:
+                            problems.append('%s 1 is taken when the associativity is NOT %s' % ('+' if op == 'Add' else '-', want))
+                        continue
+                    problems.append('the direction of the right binding power also depends on %s (bb%d)' % (nm.split('::')[-1] or 'a call', sb))
                     continue
-                src = bool_source(b, t['discr'])
-                if src is None:
-                    problems.append('bb%d: the direction also depends on a non-call test (bb%d)' % (bb, sb))
-                    continue
-                tc, parity = src
-                nm = tc.rdef or tc.callee or ''
-                if nm.endswith('::is_err') or nm.endswith('::is_ok') or nm.endswith('::is_none') or nm.endswith('::is_some'):
-                    continue
-                if tc.callee in ('std::cmp::PartialEq::eq', 'std::cmp::PartialEq::ne') and tc.fn and all('InfixOpAssociativity' in a for a in tc.fn.get('args', [])[:2]):
-                    consts = set()
-                    for a in tc.args[:2]:
-                        for o in trace_operand(b, a):
-                            if o.kind == 'agg' and o.data[2]['agg'] == 'adt' and not o.data[2]['ops']:
-                                consts.add(o.data[2]['variant'])
-                    truth = None
-                    listed = [v for v, _ in t['targets']]
+                if kind == 'enum' and 'InfixOpAssociativity' in str(detail):
+                    listed = {v for v, _ in t['targets']}
                     for v, x in switch_edges(b, sb):
-                        if x in edges:
-                            truth = (1 if listed == [0] else 0 if listed == [1] else None) if v == 'otherwise' else (1 if v != 0 else 0)
-                    if truth is not None:
-                        truth ^= parity ^ (1 if tc.callee.endswith('::ne') else 0)
-                    if consts == {want} and truth == 1:
-                        found = True
-                    elif consts and truth == 0 and consts == ({'LEFT', 'RIGHT'} - {want}):
-                        pass    # "not the other one" on the way: fine
-                    elif consts == {want} and truth == 0:
-                        problems.append('%s 1 is taken when the associativity is NOT %s' % ('+' if op == 'Add' else '-', want))
+                        if not edge_dominates(b, sb, x, bb):
+                            continue
+                        if v == 'otherwise':
+                            rest = [anames[k] for k in range(len(anames)) if k not in listed]
+                            vs = set(rest)
+                        else:
+                            vs = {anames[v]} if v < len(anames) else set()
+                        if vs == {want}:
+                            found = True
+                        else:
+                            problems.append('%s 1 is taken for associativity %s' % ('+' if op == 'Add' else '-', sorted(vs)))
                     continue
-                problems.append('the direction of the right binding power also depends on %s (bb%d)' % (nm.split('::')[-1] or 'a comparison', sb))
+                problems.append('the direction of the right binding power also depends on a %s test (bb%d)' % (kind, sb))
             if not found and not problems:
-                problems.append('%s 1 is not guarded by `associativity == %s`' % ('+' if op == 'Add' else '-', want))
+                problems.append('%s 1 is not guarded by a test that the associativity is %s' % ('+' if op == 'Add' else '-', want))
         if problems:
             obs.append(bad('WASSOC', key, '; '.join(sorted(set(problems))), b.where(), body=b.name))
         else:
-            obs.append(ok('WASSOC', key, 'right = left + 1 iff associativity == LEFT, right = left - 1 iff == RIGHT; nothing else decides the direction', b.where()))
+            obs.append(ok('WASSOC', key, 'right = left + 1 iff associativity is LEFT, right = left - 1 iff RIGHT; nothing else decides the direction', b.where()))
     obs.append(floor('WASSOC', 'binding-power-functions', n, 1, 'associativity must be turned into binding powers somewhere'))
     return obs
 
